@@ -489,3 +489,33 @@ func TestC18Enum(t *testing.T) {
 	}
 	RunCases(t, propC18, "C18Enum", true, next)
 }
+
+// FuzzC18: the fuzzer's bytes choose side, cut plan, consumer operations and the peer's stream.
+func FuzzC18(f *testing.F) {
+	f.Add([]byte{0, 0, 3, 1, 2, 0}, []byte("{\"f\":1}\x00PAYLOAD\x00tail"))
+	f.Add([]byte{1, 1, 2, 0, 1}, []byte("\x00\x00raw\x00"))
+	f.Add([]byte{0, 9, 4, 2, 2, 2, 2}, bytes.Repeat([]byte("0123456789abcdef"), 300))
+	f.Add([]byte{1, 0, 1, 3}, []byte{})
+	st := NewStats("FuzzC18")
+	sizes := []int{1, 2, 100, 4095, 4096, 4097, 10000}
+	f.Fuzz(func(t *testing.T, ctl []byte, tail []byte) {
+		if len(ctl) < 3 || len(ctl) > 16 || len(tail) > 20000 {
+			return
+		}
+		c := C18Case{Side: []string{"handler", "client"}[int(ctl[0])%2], Transport: "pipe", Tail: tail}
+		if ctl[1] > 0 {
+			c.Cuts = []int{int(ctl[1]) * 17}
+		}
+		for _, b := range ctl[2:] {
+			if b%3 == 0 {
+				c.Ops = append(c.Ops, ReadOp{Kind: "readbytes"})
+			} else {
+				c.Ops = append(c.Ops, ReadOp{Kind: "read", N: sizes[int(b)%len(sizes)]})
+			}
+		}
+		if err := Guard(func() error { return checkC18(c, st) }); err != nil {
+			SaveFailing("C18", "C18", c, err.Error())
+			t.Fatalf("C18 violated: %v", err)
+		}
+	})
+}
